@@ -94,8 +94,9 @@ def lanczosFinish (Afun : List α → List α) (n j : Nat) (st : LState α ρ) :
   let w := Afun vj
   { st with alpha := st.alpha ++ [RealLike.re (vdot n w vj)] }
 
-/-- `lanczos_iteration` up to the packaging of the result: the filled `alpha`, `beta`, rows of `V` -/
-def lanczosCore (Afun : List α → List α) (dnorm : List α → ρ) (vstart : List α) (numiter : Nat) :
+/-- `lanczos_iteration` without the cap on the number of iterations (the code before the repair F11), up to the packaging
+of the result: the filled `alpha`, `beta`, rows of `V` -/
+def lanczosCoreU (Afun : List α → List α) (dnorm : List α → ρ) (vstart : List α) (numiter : Nat) :
     Except Err (LState α ρ) := do
   let n := vstart.length
   let nrmv := dnorm vstart
@@ -106,6 +107,13 @@ def lanczosCore (Afun : List α → List α) (dnorm : List α → ρ) (vstart : 
   let r := lanczosLoop Afun dnorm n (numiter - 1) 0 { alpha := [], beta := [], V := [v0] }
   if r.2 then return r.1
   return lanczosFinish Afun n (numiter - 1) r.1
+
+/-- `lanczos_iteration` up to the packaging of the result.  `numiter = min(numiter, len(vstart))` (F11: the Krylov space
+cannot have a larger dimension than the vector space) sits between the assertion on the norm and the allocation of
+`alpha`, `beta`, so the order of the possible exceptions is that of `lanczosCoreU` at the capped count. -/
+def lanczosCore (Afun : List α → List α) (dnorm : List α → ρ) (vstart : List α) (numiter : Nat) :
+    Except Err (LState α ρ) :=
+  lanczosCoreU Afun dnorm vstart (min numiter vstart.length)
 
 /-- `lanczos_iteration(Afunc, vstart, numiter)` → `(alpha, beta, V)` with `V` of shape `len(vstart) × len(alpha)` -/
 def lanczos (Afun : List α → List α) (dnorm : List α → ρ) (vstart : List α) (numiter : Nat) :
@@ -149,7 +157,8 @@ def arnoldiFinish (Afun : List α → List α) (n j : Nat) (st : AState α ρ) :
   let r := mgs n (st.V.take (j + 1)) w
   { st with cols := st.cols ++ [r.2] }
 
-def arnoldiCore (Afun : List α → List α) (dnorm : List α → ρ) (vstart : List α) (numiter : Nat) :
+/-- `arnoldi_iteration` without the cap on the number of iterations -/
+def arnoldiCoreU (Afun : List α → List α) (dnorm : List α → ρ) (vstart : List α) (numiter : Nat) :
     Except Err (AState α ρ) := do
   let n := vstart.length
   let nrmv := dnorm vstart
@@ -160,6 +169,11 @@ def arnoldiCore (Afun : List α → List α) (dnorm : List α → ρ) (vstart : 
   let r := arnoldiLoop Afun dnorm n (numiter - 1) 0 { cols := [], sub := [], V := [v0] }
   if r.2 then return r.1
   return arnoldiFinish Afun n (numiter - 1) r.1
+
+/-- `arnoldi_iteration` up to the packaging of the result, with `numiter = min(numiter, len(vstart))` (F11) -/
+def arnoldiCore (Afun : List α → List α) (dnorm : List α → ρ) (vstart : List α) (numiter : Nat) :
+    Except Err (AState α ρ) :=
+  arnoldiCoreU Afun dnorm vstart (min numiter vstart.length)
 
 /-- the `k × k` upper Hessenberg matrix with the given columns above and on the diagonal and the given subdiagonal -/
 def hessMat (cols : List (List α)) (sub : List ρ) : Mat α :=
